@@ -1,6 +1,5 @@
 """C12 — PPM encode/decode is a bijection on whole symbols; HDD/SDD emit valid codewords."""
 import itertools
-import os
 import warnings
 
 from harness.common.wire import exc_enum
@@ -17,11 +16,10 @@ MANIFEST = {
             "energy; exact ValueError conditions of HDD/SDD; dec2bin.  Tie: exact differential run of the compiled model "
             "against the real functions (all bit strings <= 8/12, all slot patterns with all picks, random long inputs, every "
             "container form, numpy's random draws spied and replayed into the model).",
-    "note": "Trusted: Lean kernel, translator tools/extractors/ppm.py (the `M & (M-1)` test of HDD and SDD, the three expressions of the "
+    "note": "Trusted: Lean kernel, translator tools/extractors/ppm.py (the `M < 1 or not M & (M-1) == 0` test of HDD and SDD, the three expressions of the "
             "dec2bin loop), harness, numpy semantics of reshape/sum/where/argmax/fancy assignment, int(np.log2(M)) = "
             "floor(log2 M) for M < 2^31; float sums are exact on the generated dyadic samples.  DAC-rendered waveforms "
-            "(gaussian/rz/nrz) are checked by the oracle only.  Order 0 is let through by the power-of-two test of HDD/SDD and ends "
-            "in ZeroDivisionError (modelled as such; reported as suspected defect, not generated by default).  "
+            "(gaussian/rz/nrz) are checked by the oracle only.  Orders below 1 are refused by `M < 1 or …` (translated from the source).  "
             "Axioms: propext, Classical.choice, Quot.sound.",
     "technique": "Lean 4 proof by induction over an executable model; differential correspondence run with spied RNG; exhaustive small domains",
     "design": "§5 C12",
@@ -251,8 +249,8 @@ def gen_cases(rng, tier):
         slots = "".join("0" * j + "1" + "0" * (M - 1 - j) for j in (rng.randrange(M) for _ in range(nsym)))
         cases.append({"kind": "hdd", "M": M, "data": _data(rng.choice(forms), slots, rng), "np_seed": rng.randrange(1 << 32)})
     # rejected: not a power of two, ragged length
-    for M in [3, 5, 6, 7, 9, 10, 12, 15, 17, 24, 100, 255, 257, -1, -2, -4, -8]:
-        for n in [0, 1, abs(M), 2 * abs(M), rng.randrange(1, 60)]:
+    for M in [0, 0, 3, 5, 6, 7, 9, 10, 12, 15, 17, 24, 100, 255, 257, -1, -2, -4, -8, -256]:
+        for n in [0, 1, abs(M), 2 * abs(M), 4, rng.randrange(1, 60)]:
             cases.append({"kind": "hdd", "M": M, "data": _data(rng.choice(SEQ_FORMS), _rand_bits(rng, n), rng),
                           "np_seed": rng.randrange(1 << 32)})
     for M in [2, 4, 8, 16, 256]:
@@ -280,9 +278,9 @@ def gen_cases(rng, tier):
         for t in itertools.product([0, 1, 2], repeat=M * (2 if M == 2 else 1)):
             cases.append({"kind": "sdd", "M": M, "sps": 1, "xs": [16 * v for v in t], "form": "ndarray"})
     # rejected
-    for M in [3, 5, 6, 12, -2, -4, 100]:
+    for M in [0, 0, 3, 5, 6, 12, -1, -2, -4, 100]:
         for sps in [1, 4]:
-            cases.append({"kind": "sdd", "M": M, "sps": sps, "xs": [rng.randint(0, 9) for _ in range(abs(M) * sps * 2)],
+            cases.append({"kind": "sdd", "M": M, "sps": sps, "xs": [rng.randint(0, 9) for _ in range(max(abs(M), 2) * sps * 2)],
                           "form": rng.choice(sdd_forms[:1] + sdd_forms[2:])})
     for M in [2, 4, 8]:
         for sps in [1, 3, 16]:
@@ -325,18 +323,18 @@ def gen_cases(rng, tier):
         d = rng.randrange(0, 64)
         cases.append({"kind": "dec2bin", "num": rng.choice([rng.randrange(0, 2 ** d + 1), 2 ** d - 1, 2 ** d, rng.getrandbits(70)]),
                       "digits": d})
-    if os.environ.get("VERIF_SUSPECT"):
-        cases += [dict(c) for c in SUSPECT]
+    # order 0 (fix efa5e55: `M < 1 or not M & (M-1) == 0`), the former suspect cases
+    cases += [dict(c) for c in ORDER_ZERO]
     rng.shuffle(cases)
     return cases
 
 
-# suspected genuine defect, reported, not generated by default (see the final report of this property):
-# order 0 is not a power of two, yet `not M & (M-1) == 0` lets it through and `size % 0` raises ZeroDivisionError
-# where the statement asks for ValueError.
-SUSPECT = [
+ORDER_ZERO = [
     {"kind": "hdd", "M": 0, "data": {"form": "list", "vals": [0, 1, 0, 0], "bits": "0100"}, "np_seed": 1},
+    {"kind": "hdd", "M": 0, "data": {"form": "str", "text": "0100", "bits": "0100"}, "np_seed": 1},
+    {"kind": "hdd", "M": 0, "data": {"form": "list", "vals": [], "bits": ""}, "np_seed": 1},
     {"kind": "sdd", "M": 0, "sps": 2, "xs": [16, 0, 0, 16], "form": "ndarray"},
+    {"kind": "sdd", "M": 0, "sps": 1, "xs": [16, 0], "form": "esig"},
 ]
 
 
